@@ -113,6 +113,11 @@ theorem C19_effMax (f : Flags) (cfgMax : Int) :
   unfold effMax
   cases f.maxComplexityChanged <;> simp
 
+/-- a configuration file that cannot be resolved (an explicit `--config` that does not exist) fails the check before any analysis runs -/
+theorem C19_config_error (f : Flags) (r : Results) : exitZeroCfg false f r = false := rfl
+
+theorem C19_config_ok (f : Flags) (r : Results) : exitZeroCfg true f r = exitZero f r := by simp [exitZeroCfg]
+
 /-- **C19 (selection).** Without `--select`: complexity and dead code always, clones unless skipped, deps and mock
 data never; with `--select`: exactly the selected analyses. -/
 theorem C19_enabled (f : Flags) (a : Analysis) :
@@ -131,6 +136,7 @@ theorem C19_facts :
       "return: &CheckCommand{ configFile: \"\", quiet: false, maxComplexity: 10, allowDeadCode: false, skipClones: false, allowCircularDeps: false, maxCycles: 0, selectAnalyses: []string{}, }"] ∧
     PV.Generated.GateFacts.runCheck = [
       "if: len(args) == 0", "if: len(c.selectAnalyses) > 0", "if: err != nil", "return: fmt.Errorf(…)",
+      "if: err != nil", "return: fmt.Errorf(…)",
       "assign: skipComplexity, skipDeadCode, skipClones, skipDeps, skipMockdata := c.determineEnabledAnalyses()",
       "if: !c.quiet",
       "if: !skipComplexity", "if: err != nil", "assign: hasErrors = true", "assign: issueCount += complexityIssues",
